@@ -64,7 +64,15 @@ def reads_for(rng, d, names, sweep):
     allc = names.consumers + names.upper_consumers
     for c in (allc if sweep else [rng.choice(allc)]):
         cands.append('/allocations/%s' % c)
-    cands += ['/resource_providers', '/traits', '/resource_classes']
+    cands += ['/resource_providers', '/traits', '/resource_classes',
+              '/traits?associated=%s' % rng.choice(['true', 'false',
+                                                    'TRUE', 'maybe']),
+              '/traits?name=startswith:%s' % rng.choice(
+                  ['CUSTOM_', 'CUSTOM_T', 'HW_CPU_X86_A', 'MISC', '']),
+              '/traits?name=in:%s' % ','.join(rng.sample(
+                  ['CUSTOM_T1', 'CUSTOM_T2', 'CUSTOM_T3', 'HW_CPU_X86_AVX',
+                   'CUSTOM_NOPE'], 2)),
+              '/traits?name=startswith:CUSTOM&associated=true']
     for pj in (sorted(d.projects)[:3] if sweep else
                sorted(d.projects)[:1]):
         cands.append('/usages?project_id=%s' % pj)
